@@ -298,6 +298,59 @@ fn smallbuf_prop(model: &Model, tape: &[u32], st: &mut Stats) -> Result<(), Stri
     Ok(())
 }
 
+// -------------------------------------------------------------------------------------------------
+// long histories on one interface (state kept across messages: error queue, header path)
+// -------------------------------------------------------------------------------------------------
+
+const HISTORY_OPS: &[&[u8]] = &[
+    b"X\n", b"A\n", b"A 300\n", b"A 'x'\n", b"@\n", b"E MAYBE\n", b"A 1,2\n", b"H:A 1;NOPE;A?\n", b"SYST:ERR?\n",
+    b"SYST:ERR:NEXT?\n", b"SYST:ERR:COUN?\n", b"SYST:ERR?;ERR?;ERR?\n", b"SYST:ERR:NEXT?;COUN?;NEXT?\n", b"*A\n", b"A 1\n", b"A?\n",
+    b"AE?\n", b"E:E? 9\n", b"H:E 'a\nb'\n", b"H:H #13a\nb;A 1\n", b"A 1;\n", b"\n", b"H:A 1;A 2;E 1\n", b"*E?;*E?;*E?\n",
+];
+
+fn history_q<const Q: usize>(stream: &[u8], n: usize, reads: &[usize], pauses: &[u8]) -> Result<(Vec<Ev>, Vec<Ev>), String> {
+    let out = vrun::run_heapless::<fixture::mini::I<Q>, 64>(None, pauses, stream);
+    check_run(&out)?;
+    let po = match n {
+        16 => vrun::process::<fixture::mini::I<Q>, 16>(None, pauses, stream, reads, None),
+        64 => vrun::process::<fixture::mini::I<Q>, 64>(None, pauses, stream, reads, None),
+        _ => vrun::process::<fixture::mini::I<Q>, 256>(None, pauses, stream, reads, None),
+    };
+    check_proc(&po, stream.len())?;
+    Ok((out.log, po.log))
+}
+
+fn history_prop(tape: &[u32], st: &mut Stats) -> Result<(), String> {
+    let mut t = Tape::new(tape);
+    let q = [1usize, 2, 4][t.below(3)];
+    let n = [16usize, 64, 256][t.below(3)];
+    let n_ops = t.range(8, 60);
+    let mut stream = Vec::new();
+    for _ in 0..n_ops {
+        stream.extend_from_slice(HISTORY_OPS[t.weighted(&[3, 3, 3, 3, 3, 3, 3, 3, 4, 4, 4, 2, 2, 1, 1, 1, 1, 1, 1, 1, 1, 1, 1, 1])]);
+    }
+    let reads = fixture::streams::gen_reads(&mut t, stream.len(), n);
+    let np = t.below(3);
+    let pauses: Vec<u8> = (0..np).map(|_| t.below(3) as u8).collect();
+    let r = match q {
+        1 => history_q::<1>(&stream, n, &reads, &pauses),
+        2 => history_q::<2>(&stream, n, &reads, &pauses),
+        _ => history_q::<4>(&stream, n, &reads, &pauses),
+    };
+    let (run_log, _proc_log) = r.map_err(|e| format!("{} [queue capacity {} N {} stream '{}']", e, q, n, esc(&stream)))?;
+    let errors = run_log.iter().filter(|e| matches!(e, Ev::Error { .. })).count();
+    let pops = run_log.iter().filter(|e| matches!(e, Ev::QPop { .. })).count();
+    if errors > q {
+        st.class("history with a queue overflow");
+    }
+    if errors > q && pops > 0 {
+        st.class("overflow and queue reads in one history");
+        st.nontrivial(&(&stream, q, n));
+    }
+    st.sample(|| json!({ "queue_capacity": q, "N": n, "messages": n_ops, "stream_start": esc(&stream[..stream.len().min(120)]) }));
+    Ok(())
+}
+
 fn main() {
     let mut h = Harness::from_args("C05");
     let spec = vrun::spec_of(fixture::mini::SPEC_JSON);
@@ -387,6 +440,14 @@ fn main() {
         false,
         |h, st| h.tape_search("c05.smallbuf", cases, 64, st, |tape, st| smallbuf_prop(&model, tape, st)),
         |case| replay_tape(case, |tape, st| smallbuf_prop(&model, tape, st)),
+    );
+    let cases = h.tier.pick(60_000, 1_500_000);
+    h.check(
+        "c05.history",
+        "proptest tapes -> histories of 8-60 messages on ONE interface (faults of every kind, queue reads and counts alone and several per message, valid commands and queries, payload newlines, messages ending in ';') for error-queue capacities 1, 2 and 4, through run in one buffer and through process::<16|64|256> under random schedules and Pending scripts; the state the library keeps across messages (error queue, header path, command buffer) must never lead to a panic, a non-suffix return or an early end; non-trivial = histories with a queue overflow and queue reads",
+        false,
+        |h, st| h.tape_search("c05.history", cases, 200, st, |tape, st| history_prop(tape, st)),
+        |case| replay_tape(case, |tape, st| history_prop(tape, st)),
     );
     h.check(
         "c05.fuzz_replay",
